@@ -143,10 +143,6 @@ func init() {
 		// uninterpreted function of a byte string: UF(name, len, bytes...) -> uint64
 		name := it.constStr(args[0], "uf name")
 		b, o, n := bytesOf(args[1])
-		if !b.hasSym(o, n) {
-			// concrete argument: a fixed but unknown value per distinct string -> 0-ary UF named by content
-			return it.ts.UF(fmt.Sprintf("%s!%d!%x", name, n, b.b[o:o+n]), 64)
-		}
 		ts := make([]*term.Term, n)
 		for i := 0; i < n; i++ {
 			ts[i] = it.toTerm8(it.bufByte(b, o+i))
